@@ -315,6 +315,9 @@ fn run_corpus(r: &mut Runner) {
         BTreeMap<String, u16>, BTreeMap<u16, String>, BTreeMap<u8, Vec<u8>>, HashMap<String, u32>, HashMap<u64, bool>,
         SNamed, SGen<u8>, SGen<i16>, SGen<String>, SNest,
     );
+    // every composition W1<W2<L>> of wrappers over leaves (generated lists: 216 types; 810 with the
+    // cargo feature `composed-types` that the thorough tier builds with)
+    crate::composed_types_c14!(dom_all!(r;));
     r.list::<NonZeroU8>("NonZeroU8", vec![NonZeroU8::new(1).unwrap(), NonZeroU8::MAX]);
     r.list::<NonZeroI8>("NonZeroI8", vec![NonZeroI8::new(-1).unwrap(), NonZeroI8::MIN]);
     r.list::<NonZeroU16>("NonZeroU16", vec![NonZeroU16::new(1).unwrap(), NonZeroU16::MAX]);
@@ -446,6 +449,7 @@ pub fn run(ctx: &Ctx) {
     ctx.add_evals(r.evals);
     ctx.add_nontrivial(r.evals);
     ctx.class("types", r.types);
+    ctx.class("composed-types(generated W1<W2<L> list)", crate::checks::typed_gen::COMPOSED_C14 as u64);
     // every node kind except Usize/Isize (no built-in impl) must occur in the corpus schemas
     let mut kinds = BTreeSet::new();
     for (_, s) in &r.schemas {
